@@ -13,11 +13,11 @@ def preSettle (m : M) : Op → Option M
   | .reject p e => match (m.core p).st with | .pending => some (rejectAndWalk m p e) | _ => none
   | .whenAll ps =>
     let m1 := (m.newCore {}).1
-    some { m1 with datas := m1.datas ++ [({ target := (m.newCore {}).2, total := ps.length } : Data)],
+    some { m1 with datas := m1.datas ++ [({ target := (m.newCore {}).2, total := ps.length, inputs := ps, anyKind := false } : Data)],
                    stack := (ps.zipIdx.map fun (pi : Nat × Nat) => Act.attach pi.1 ({ kind := .allInput m1.datas.length pi.2, chain := 0 } : Req)) ++ m1.stack }
   | .whenAny ps =>
     let m1 := (m.newCore {}).1
-    some { m1 with datas := m1.datas ++ [({ target := (m.newCore {}).2, total := ps.length } : Data)],
+    some { m1 with datas := m1.datas ++ [({ target := (m.newCore {}).2, total := ps.length, inputs := ps, anyKind := true } : Data)],
                    stack := (ps.map fun (p : Nat) => Act.attach p ({ kind := .anyInput m1.datas.length, chain := 0 } : Req)) ++ m1.stack }
   | _ => none
 
